@@ -1,6 +1,7 @@
 """C05 — merge is a lossless, order- and partition-insensitive fold (qecsim.app.merge against Model/Merge.lean)"""
 import copy
 import json
+import math
 from fractions import Fraction
 
 from qv.core import ilist, rat
@@ -8,7 +9,13 @@ from qv.core import ilist, rat
 RULE = ('record multisets drawn from pools of groups that differ in exactly one key field (code, n_k_d incl. d=None, '
         'error_model, decoder, error_probability, time_steps, measurement_error_probability), with/without arrays, '
         'tuple/list encoded, current/legacy field sets, random partitions into argument lists, plus closure (outputs of '
-        'earlier merges fed back) and planted array mismatches / n_run=0 groups; single-call equivalence with the '
+        'earlier merges fed back) and planted array mismatches / n_run=0 groups; arrays are absent (legacy) / None / '
+        'present-but-EMPTY (zero-length tuple or list) / non-empty, in every position of a group; key VALUES are an input '
+        'class: clusters of adjacent doubles (x, nextafter(x) up and down), decimal-looking values computed in different '
+        'ways (0.1+0.2 / 0.3, 0.1*0.7 / 0.07, 3*0.1 ...), the smallest subnormal, 1e-300, 1-2^-53, and ints vs equal '
+        'floats (0 / 0.0, 1 / 1.0: one group, as Python equality says) in both probability fields (the model keys on the '
+        'exact rational value); the output key value must be bit-for-bit (repr) one of the group\'s input values; '
+        'single-call equivalence with the '
         'model incl. output order; inputs deep-copied and compared after the call (immutability); metamorphic '
         'permutation/partition/nesting/JSON checks on the real merge. wall_time values are dyadic so float sums are '
         'exact. non-trivial = at least two records share a group')
@@ -83,6 +90,20 @@ def base_record(rng):
             'error_probability': 0.125, 'time_steps': 1, 'measurement_error_probability': 0.0}
 
 
+def _near(x):
+    return [x, math.nextafter(x, 0.0), math.nextafter(x, 2.0), math.nextafter(math.nextafter(x, 2.0), 2.0)]
+
+
+# clusters of key values that are pairwise DIFFERENT doubles (different groups) although they look alike
+CLUSTERS = [
+    [0.3, 0.1 + 0.2] + _near(0.3)[1:3], [0.07, 0.1 * 0.7, 7 / 100, 0.7 / 10], [0.3, 3 * 0.1, 0.1 * 3, 1 - 0.7],
+    [0.15, 0.1 + 0.05, 0.3 / 2, 0.45 / 3], _near(0.125), _near(0.5), _near(0.01), [1.0, 1 - 2.0 ** -53, 1 - 2.0 ** -52],
+    [5e-324, 1e-323, 0.0], [1e-300, math.nextafter(1e-300, 1.0), 1e-300 * (1 + 2.0 ** -40)],
+    [2.2250738585072014e-308, math.nextafter(2.2250738585072014e-308, 0.0)], [1 / 3, 0.1 / 0.3, 1 - 2 / 3],
+    [0.6, 0.2 * 3, 0.2 + 0.4, 1.2 / 2], [1e-05, 0.1 ** 5, 1 / 100000, 10.0 ** -5],
+]
+
+
 VARIANTS = [
     ('code', 'Planar 3x5'), ('n_k_d', (13, 1, None)), ('n_k_d', (15, 1, 3)), ('error_model', 'Bit-flip'),
     ('decoder', 'Planar MPS (chi=6)'), ('error_probability', 0.25), ('error_probability', 0), ('time_steps', 3),
@@ -96,9 +117,14 @@ def make_pool(rng):
     protos = [base]
     for k, v in rng.sample(VARIANTS, rng.randint(1, 5)):
         p = dict(base); p[k] = v; protos.append(p)
+    if rng.random() < 0.5:  # near-equal key values: every distinct double is its own group
+        k = rng.choice(['error_probability', 'error_probability', 'measurement_error_probability'])
+        vals = sorted(set(rng.choice(CLUSTERS)))
+        for v in rng.sample(vals, rng.randint(2, len(vals))):
+            p = dict(base); p[k] = v; protos.append(p)
     shaped = []
     for p in protos:
-        shaped.append((p, rng.choice([None, 2, 2, 4]), rng.choice([None, None, 1, 3])))
+        shaped.append((p, rng.choice([None, 0, 2, 2, 4]), rng.choice([None, None, 0, 1, 3])))
     return shaped
 
 
@@ -111,6 +137,9 @@ def make_record(rng, proto, lcl, cvl, allow_legacy=True, zero=False):
               'n_logical_commutations': None if lcl is None else tuple(rng.randint(0, n_run) for _ in range(lcl)),
               'custom_totals': None if cvl is None else tuple(rng.randint(-9, 99) for _ in range(cvl)),
               'error_weight_pvar': 0.5, 'logical_failure_rate': 0.25, 'physical_error_rate': 0.125})
+    for k in ('error_probability', 'measurement_error_probability'):  # ints vs equal floats: the same group
+        if r[k] == int(r[k]) and rng.random() < 0.4:
+            r[k] = rng.choice([int(r[k]), float(r[k])])
     enc = rng.random()
     if enc < 0.3:  # JSON form: lists for tuples
         r['n_k_d'] = list(r['n_k_d'])
@@ -152,7 +181,7 @@ def run(ctx):
         r = rng.random()
         if r < 0.15 and recs:  # planted mismatch
             proto, lcl, cvl = rng.choice(pool)
-            bad = make_record(rng, proto, rng.choice([None, 1, 3]), rng.choice([None, 2]))
+            bad = make_record(rng, proto, rng.choice([None, 0, 1, 3]), rng.choice([None, 0, 2]))
             recs.insert(rng.randrange(len(recs) + 1), bad); kind = 'maybe-mismatch'
         elif r < 0.2 and recs:
             proto, lcl, cvl = rng.choice(pool)
@@ -165,6 +194,10 @@ def run(ctx):
         impl, res = impl_merge(lists)
         if lists != before:
             ctx.monitor_fail('merge mutated its inputs', {'lists': before})
+        if res is not None:
+            bad_key = key_value_check([x for l in before for x in l], res)
+            if bad_key:
+                ctx.monitor_fail(bad_key[0], dict(bad_key[1], lists=before))
         line = 'c05 merge ' + ' '.join('|'.join(rec_wire(x) for x in l) if l else '.' for l in lists)
         keys = [rec_wire(x).split(';')[:8] for x in recs]
         shared = len({tuple(k[:2] + k[3:]) for k in keys}) < len(keys)
@@ -195,6 +228,28 @@ def run(ctx):
                     ctx.monitor_fail('merge result changes under ' + name,
                                      {'lists': before, 'variant': ls, 'base': impl[:300], 'variant_result': i2[:300]})
     return ctx.finish(RULE, search=search)
+
+
+KEYF = lambda r: (r['code'], tuple(r['n_k_d']), r['error_model'], r['decoder'], r['error_probability'],  # noqa: E731
+                  r.get('time_steps', 1), r.get('measurement_error_probability', 0.0))
+
+
+def key_value_check(flat, res):
+    """losslessness of the key itself: every output group's numeric key values are, bit for bit (repr), values that
+    occur in the input records of that group (grouping by Python equality of the seven key fields)"""
+    groups = {}
+    for r in flat:
+        groups.setdefault(KEYF(r), []).append(r)
+    for g in res:
+        rs = groups.get(KEYF(g))
+        if rs is None:
+            return ('output group key is not the key of any input record', {'output_key': repr(KEYF(g))})
+        for f, dflt in (('error_probability', None), ('time_steps', 1), ('measurement_error_probability', 0.0)):
+            have = {repr(r.get(f, dflt)) for r in rs}
+            if repr(g[f]) not in have:
+                return ('output key value of {} is not bit-for-bit an input value of its group'.format(f),
+                        {'got': repr(g[f]), 'input_values': sorted(have)})
+    return None
 
 
 def parse_rec(w):
@@ -243,7 +298,8 @@ def search(m):
         return {'what': 'merge raised on consistent records', 'lists': lists, 'impl': impl}
     if len(res) != len(groups):
         return {'what': 'records are not grouped by exactly the seven key fields', 'lists': lists,
-                'n_groups': len(res), 'expected': len(groups)}
+                'n_groups': len(res), 'expected': len(groups),
+                'input_keys': sorted(repr(k[4:]) for k in groups), 'output_keys': sorted(repr(keyf(g)[4:]) for g in res)}
     for g in res:
         k = keyf(g)
         if k not in groups:
